@@ -14,7 +14,9 @@ import CoxeterVerif.Spec.MeshIO
     IndexError, yields empty tokens; the theorems assume indices in range).
   * `to_stl` works on `deepcopy(shape)` and then executes `shape.centroid[i] -= m`, which changes only
     the array returned by the `centroid` property of the COPY, never a vertex: the written
-    coordinates are the original ones and nothing is shifted.  Modelled as such.
+    coordinates are the original ones and nothing is shifted.  Modelled as such.  (Evaluating the property can
+    raise inside `Polyhedron.centroid`; the model assumes it does not and the harness reports a raising
+    writer as `io.to_stl:raises:<kind>` — it did, for faces of area < 1e-8, before /repo commit df1b699.)
   * `to_x3d` / `to_html` build an ElementTree; `Xml.render` is ElementTree's `_serialize_xml`
     (attributes in insertion order, `short_empty_elements`, `_escape_attrib`, `_escape_cdata`).
     `to_html` re-parses the X3D file and serialises it inside `<body>`: ElementTree then resolves the
